@@ -19,6 +19,13 @@ pub fn pool() -> Vec<RV> {
         RV::Int(-1),
         RV::Int(2),
         RV::Int(10),
+        // distinct integers that are one and the same double
+        RV::Int(9_007_199_254_740_992),
+        RV::Int(9_007_199_254_740_993),
+        RV::Int(i64::MAX - 1),
+        RV::Int(i64::MAX),
+        RV::Int(i64::MIN),
+        fl(9_007_199_254_740_992.0),
         fl(1.0),
         fl(1.5),
         fl(2.0),
@@ -166,7 +173,7 @@ fn case_nth(i: u64) -> Option<Prog> {
 
 /// (iv) all and/or chains of length 1..4 with every operator pattern and truth assignment
 fn logic_nth(i: u64) -> Option<Prog> {
-    let d = decode(i, &[4, 8, 16, 2])?;
+    let d = decode(i, &[4, 8, 16, 3])?;
     let n = d[0] as usize + 1;
     if d[1] >= (1 << (n - 1)) || d[2] >= (1 << n) {
         return None;
@@ -175,7 +182,16 @@ fn logic_nth(i: u64) -> Option<Prog> {
     // operator j between atom j and j+1: bit set = `or`
     let mut ors: Vec<Vec<Atom>> = vec![vec![]];
     for j in 0..n {
-        let atom = if d[3] == 0 { Atom::Truthy(Expr::var(names[j])) } else { Atom::Cmp(Expr::var(names[j]), "==".into(), Expr::Lit(Lit::Bool(true))) };
+        // style 2: the last operand is a comparison that cannot be evaluated (undefined name); when
+        // the operands before it already decide its group it must not be touched (guard idiom
+        // `{% if user and user.age >= 18 %}`); when it is reached the case is not asserted
+        let atom = if d[3] == 2 && j + 1 == n && n > 1 {
+            Atom::Cmp(Expr::path("undefined_zz", &["age"]), ">=".into(), Expr::int(18))
+        } else if d[3] == 0 {
+            Atom::Truthy(Expr::var(names[j]))
+        } else {
+            Atom::Cmp(Expr::var(names[j]), "==".into(), Expr::Lit(Lit::Bool(true)))
+        };
         ors.last_mut().unwrap().push(atom);
         if j + 1 < n && (d[1] >> j) & 1 == 1 {
             ors.push(vec![]);
@@ -186,6 +202,26 @@ fn logic_nth(i: u64) -> Option<Prog> {
         nodes: vec![txt("<"), Node::If { arms: vec![(Cond { ors }, vec![txt("T")], Tr::PLAIN)], else_: Some((vec![txt("F")], Tr::PLAIN)), close: Tr::PLAIN }, txt(">")],
         data,
     })
+}
+
+/// Bare truthiness of `x.a` where a loop variable x shadows caller data x: the loop item decides,
+/// never the shadowed value (items: scalars, nil, objects with a truthy / falsy / missing `a`).
+fn shadowed_cases() -> Vec<Prog> {
+    let items = RV::Arr(vec![RV::Int(1), obj(vec![("a", RV::Bool(false))]), obj(vec![("b", RV::Int(1))]), st("s"), RV::Nil, obj(vec![("a", RV::Int(0))]), RV::Arr(vec![])]);
+    let mut v = Vec::new();
+    for outer in [RV::Bool(true), RV::Bool(false), RV::Nil, st("")] {
+        for unless in [false, true] {
+            let cond = Cond::truthy(Expr::path("x", &["a"]));
+            let inner = if unless {
+                Node::Unless { cond, body: vec![txt("U")], else_: Some((vec![txt("E")], Tr::PLAIN)), open: Tr::PLAIN, close: Tr::PLAIN }
+            } else {
+                Node::If { arms: vec![(cond.clone(), vec![txt("T")], Tr::PLAIN), (Cond { ors: vec![vec![Atom::Truthy(Expr::var("x")), Atom::Truthy(Expr::path("x", &["a"]))]] }, vec![txt("t")], Tr::PLAIN)], else_: Some((vec![txt("F")], Tr::PLAIN)), close: Tr::PLAIN }
+            };
+            let data = obj(vec![("x", obj(vec![("a", outer.clone())])), ("items", items.clone())]);
+            v.push(Prog { nodes: vec![Node::For { var: "x".into(), coll: Coll::Expr(Expr::var("items")), limit: None, offset: None, reversed: false, body: vec![inner, txt(",")], else_: None, open: Tr::PLAIN, close: Tr::PLAIN }], data });
+        }
+    }
+    v
 }
 
 fn rand_cfg() -> GenCfg {
@@ -224,14 +260,15 @@ fn rand_strategy() -> BoxedStrategy<Prog> {
 }
 
 pub fn run(ctx: &Ctx) {
-    ctx.set_rule("E2: (i) 8 operators x every ordered pair of a 30-value pool (nil, booleans, integers, floats equal to integers, numeric / plain / empty / blank strings, arrays, objects, empty/blank literals), each operand as a literal (where one exists) and through a variable, in if and unless; (ii) bare truthiness of every pool value and of an undefined name in if/unless/elsif; (iii) if/elsif chains of 1..4 arms x all truth assignments (booleans and other truthy/falsy kinds) x else present/absent, case with 1..4 when arms over comma / or lists with duplicate and overlapping values x target position x else; (iv) every and/or operator pattern of length <= 4 x every truth assignment; E1: random nesting. Oracle: reference interpreter (independent core for same-kind scalars, the value model for cross-kind cells). Every generated condition involves a comparison, a chain or several arms, so every case is non-trivial; distinct by (source, data).");
+    ctx.set_rule("E2: (i) 8 operators x every ordered pair of a 36-value pool (nil, booleans, integers, floats equal to integers, numeric / plain / empty / blank strings, arrays, objects, empty/blank literals), each operand as a literal (where one exists) and through a variable, in if and unless; (ii) bare truthiness of every pool value and of an undefined name in if/unless/elsif; (iii) if/elsif chains of 1..4 arms x all truth assignments (booleans and other truthy/falsy kinds) x else present/absent, case with 1..4 when arms over comma / or lists with duplicate and overlapping values x target position x else; (iv) every and/or operator pattern of length <= 4 x every truth assignment; E1: random nesting. Oracle: reference interpreter (independent core for same-kind scalars, the value model for cross-kind cells). Every generated condition involves a comparison, a chain or several arms, so every case is non-trivial; distinct by (source, data).");
     ctx.assume("undefined names inside comparisons, contains on nil / numbers, and bare empty/blank literals are outside the statement (not compared)");
     let n = pool().len() as u64;
     ctx.exhaustive("operator_pairs", 8 * n * n * 2 * 2 * 2, pairs_nth, oracle);
     ctx.exhaustive("truthiness", (n + 1) * 2 * 3, truth_nth, oracle);
     ctx.exhaustive("if_chains", 4 * 16 * 2 * 2, chain_nth, oracle);
     ctx.exhaustive("case_when", 4 * 7 * 7 * 7 * 7 * 4 * 2 * 2 * 2, case_nth, oracle);
-    ctx.exhaustive("and_or", 4 * 8 * 16 * 2, logic_nth, oracle);
+    ctx.exhaustive("and_or", 4 * 8 * 16 * 3, logic_nth, oracle);
+    ctx.cases("shadowed_member_truthiness", shadowed_cases(), oracle);
     ctx.random("nested", ctx.pick(300_000, 10_000_000), rand_strategy, oracle);
     let _ = gen::stress_scalars;
 }
